@@ -521,3 +521,99 @@ Proof.
   rewrite read_exact_bytes_then_err by lia. rewrite Hk.
   apply loop_fuel_irrelevant; lia.
 Qed.
+
+(* ---------- C07: back-pressure from downstream ---------- *)
+(* delayed, never dropped: whatever the receiving end makes the sender wait, update by
+   update, it ends up with exactly the updates the session handed over, in order *)
+Lemma deliver_snd : forall out waits t, map snd (deliver waits t out) = out.
+Proof.
+  induction out as [|g out IH]; intros waits t; [reflexivity|].
+  cbn [deliver map snd]. f_equal. apply IH.
+Qed.
+
+Theorem received_same waits out : received waits out = out.
+Proof. apply deliver_snd. Qed.
+
+Lemma deliver_ge : forall out waits t tg g, (tg, g) ∈ deliver waits t out -> t <= tg.
+Proof.
+  induction out as [|g0 out IH]; intros waits t tg g Hin; [inversion Hin|].
+  cbn [deliver] in Hin. apply elem_of_cons in Hin as [[= -> ->]|Hin]; [lia|].
+  apply IH in Hin. lia.
+Qed.
+
+(* ... and each one no earlier than the receiving end was prepared to take it *)
+Lemma deliver_lookup : forall out waits t i tg g,
+  deliver waits t out !! i = Some (tg, g) -> out !! i = Some g /\ t + default 0 (waits !! i) <= tg.
+Proof.
+  induction out as [|g0 out IH]; intros waits t i tg g Hl; [discriminate|].
+  cbn [deliver] in Hl. destruct i as [|i].
+  - cbn in Hl. injection Hl as <- <-. split; [reflexivity|]. destruct waits; cbn; lia.
+  - cbn [lookup list_lookup] in Hl. apply IH in Hl as [Ho Ht]. split; [exact Ho|].
+    destruct waits as [|w ws].
+    + rewrite lookup_nil in *. cbn in *. lia.
+    + change ((w :: ws) !! S i) with (ws !! i). lia.
+Qed.
+
+Lemma deliver_last : forall out waits t i tg g,
+  deliver waits t out !! i = Some (tg, g) ->
+  exists tl gl, last (deliver waits t out) = Some (tl, gl) /\ tg <= tl.
+Proof.
+  induction out as [|g0 out IH]; intros waits t i tg g Hl; [discriminate|].
+  cbn [deliver] in *.
+  set (w := match waits with [] => 0 | w :: _ => w end) in *.
+  set (ws := match waits with [] => [] | _ :: ws => ws end) in *.
+  rewrite last_cons. destruct i as [|i].
+  - cbn in Hl. injection Hl as <- <-.
+    destruct (last (deliver ws (t + w) out)) as [[tl gl]|] eqn:El.
+    + exists tl, gl. split; [reflexivity|].
+      apply last_Some in El as [l' El]. eapply (deliver_ge out ws (t + w) tl gl).
+      rewrite El. apply elem_of_app. right. apply elem_of_list_singleton. reflexivity.
+    + exists (t + w), g0. split; [reflexivity|lia].
+  - cbn [lookup list_lookup] in Hl. destruct (IH ws (t + w) i tg g Hl) as (tl & gl & -> & Hle).
+    exists tl, gl. split; [reflexivity|exact Hle].
+Qed.
+
+(* the session's task does not get past its last hand-over before every update has been taken *)
+Lemma finished_at_ge waits out i :
+  (i < length out)%nat -> default 0 (waits !! i) <= finished_at waits out.
+Proof.
+  intros Hi. unfold finished_at.
+  assert (Hlen : length (deliver waits 0 out) = length out).
+  { rewrite <- (map_length snd), deliver_snd. reflexivity. }
+  destruct (lookup_lt_is_Some_2 (deliver waits 0 out) i) as [[tg g] Hl]; [lia|].
+  destruct (deliver_lookup _ _ _ _ _ _ Hl) as [_ Ht].
+  destruct (deliver_last _ _ _ _ _ _ Hl) as (tl & gl & -> & Hle). lia.
+Qed.
+
+(* C07 under back-pressure: every script, every end, every schedule of waits at the
+   receiving end (each update, any length of time): what the receiving end has got
+   when the task returns is the trace of the run without any wait - one complete
+   cleanup, last - and the task has not returned before the longest wait was over. *)
+Theorem cleanup_under_backpressure parse tl rid evs s0 : SInv rid s0 ->
+  exists e rest s out, run_from parse true tl rid evs s0 = Done e rest s out /\
+    forall waits,
+      received waits out = received [] out /\ received [] out = out /\
+      cleanup_ok rid (received waits out) = true /\
+      (forall i, (i < length out)%nat -> default 0 (waits !! i) <= finished_at waits out).
+Proof.
+  intros Hi. destruct (cleanup_once_bool parse tl rid evs s0 Hi) as (e & rest & s & out & E & Hok).
+  exists e, rest, s, out. split; [exact E|]. intros waits.
+  rewrite !received_same. repeat split; [exact Hok|]. intros i Hlt. apply finished_at_ge, Hlt.
+Qed.
+
+(* the statement would notice a time limit: Initiation, Peer Up, the stream cut inside
+   the next header; the receiving end holds from the moment the reader is asked for the
+   16th event, i.e. the first update it is handed after that - the WithdrawBulk of the
+   cleanup - for an hour. The code delivers the cleanup; a sender that gives up after 5 s
+   would deliver nothing. *)
+Lemma time_limit_would_lose_cleanup :
+  let evs := map EByte [3; 0; 0; 0; 6; 4; 3; 0; 0; 0; 6; 3; 3; 0; 0] in
+  let h := MkHold 15 0 3600000 in
+  let idx := hold_index parse_w 2 evs h (conn_init 1).2 in
+  exists s out, run_stream parse_w true TEof 1 evs = Done EndEof [] s out /\
+    idx = Some 0%nat /\
+    received (waits_of idx (h_for h)) out = [GUpd (UWithdrawBulk [3]); GEos 2] /\
+    finished_at (waits_of idx (h_for h)) out = 3600000 /\
+    received_limited 5000 (waits_of idx (h_for h)) out = [GEos 2] /\
+    cleanup_ok 2 (received_limited 5000 (waits_of idx (h_for h)) out) = false.
+Proof. vm_compute. eexists _, _. repeat split; reflexivity. Qed.
